@@ -231,6 +231,10 @@ pub struct Case {
     pub prior_len: u16,
     pub cfg: ArchCfg,
     pub flip: u16,
+    /// `--seed` options of a clone: 0 none, 1 the output path itself, 2 another file, 3 the output path spelled `./name`,
+    /// 4 the output path and another file, 5 stdin. Naming a seed is neither an overwrite nor an in-place request.
+    #[serde(default)]
+    pub seeds: u8,
 }
 
 fn make_archive(kind: ArchKind, valid: &[u8], flip: u16) -> Vec<u8> {
@@ -341,6 +345,7 @@ fn run_case(c: &Case, rec: &mut CaseRec) -> Result<(), String> {
         let mut env = vec![];
         let mut hook_build = false;
         let mut srv = None;
+        let mut stdin: Option<Vec<u8>> = None;
         let arch_bytes;
         if is_clone {
             arch_bytes = make_archive(c.arch, &valid, c.flip);
@@ -368,6 +373,26 @@ fn run_case(c: &Case, rec: &mut CaseRec) -> Result<(), String> {
                 env.push(("BITA_VERIF_FORCE_BLOCKDEV".to_string(), "1".to_string()));
                 hook_build = true;
             }
+            // seeds (a seed that names the output only where the output exists: a missing seed file is an error of its own)
+            let seeds = if out_kind == OutKind::Absent && matches!(c.seeds, 1 | 3 | 4) { 2 } else { c.seeds };
+            if matches!(seeds, 2 | 4) {
+                let mut other = source.clone();
+                other.extend_from_slice(b"tail of another seed");
+                l2::write_file(&dir.join("other.seed"), &other);
+            }
+            match seeds {
+                1 => args.extend(["--seed".to_string(), out_name.to_string()]),
+                2 => args.extend(["--seed".to_string(), "other.seed".to_string()]),
+                3 => args.extend(["--seed".to_string(), format!("./{}", out_name)]),
+                4 => args.extend(["--seed".to_string(), "other.seed".to_string(), "--seed".to_string(), out_name.to_string()]),
+                5 => {
+                    args.extend(["--seed".to_string(), "-".to_string()]);
+                    stdin = Some(source.clone());
+                }
+                _ => {}
+            }
+            rec.class_if(matches!(seeds, 1 | 3 | 4), "seed_names_the_output");
+            rec.class_if(seeds != 0, "with_seed_option");
             if c.cmd == Cmd::CloneHttp {
                 let s = crate::http::Server::start(Arc::new(arch_bytes.clone()), crate::http::Script::default());
                 args.push(s.url());
@@ -393,7 +418,7 @@ fn run_case(c: &Case, rec: &mut CaseRec) -> Result<(), String> {
         let refusal = r_exists || r_archive || r_header || r_small;
         // --- run
         let before = listing(&dir);
-        let spec = l2::RunSpec { args: args.clone(), hook_build, env, ..Default::default() };
+        let spec = l2::RunSpec { args: args.clone(), hook_build, env, stdin, ..Default::default() };
         let run = l2::run_bita(&dir, &spec);
         drop(srv);
         let after = listing(&dir);
@@ -489,9 +514,9 @@ fn case_strategy() -> impl Strategy<Value = Case> {
         any::<u32>(),
         prop_oneof![1 => Just(0u16), 2 => 1u16..2000, 1 => any::<u16>()],
         (l2::cli_chunker_strategy(), hash_len_strategy(8), light_comp_strategy()).prop_map(|(chunker, hash_len, comp)| ArchCfg { chunker, hash_len, comp, buffers: 2 }),
-        any::<u16>(),
+        (any::<u16>(), prop_oneof![6 => Just(0u8), 2 => Just(1u8), 1 => Just(2u8), 1 => Just(3u8), 1 => Just(4u8), 1 => Just(5u8)]),
     )
-        .prop_map(|(cmd, out, flags, arch, verify_header, source, prior_seed, prior_len, cfg, flip)| Case { cmd, out, flags, arch, verify_header, source, prior_seed, prior_len, cfg, flip })
+        .prop_map(|(cmd, out, flags, arch, verify_header, source, prior_seed, prior_len, cfg, (flip, seeds))| Case { cmd, out, flags, arch, verify_header, source, prior_seed, prior_len, cfg, flip, seeds })
 }
 
 impl Prop for C14 {
@@ -500,7 +525,7 @@ impl Prop for C14 {
     }
     fn meta(&self, _tier: Tier) -> Meta {
         Meta {
-            rule: "cases = the real CLI on the matrix {clone local, clone over HTTP, compress} x output {absent, regular file, block device, block device smaller than the source — by 1..200 bytes or by any amount — (both via the cfg(oll3_bita_verif) hook)} x flags {neither, --force-create, --seed-output, both} x archive {valid, random bytes, empty file, one flipped header bit, truncated header, valid checksum but no chunker parameters / unknown compression / unknown algorithm / garbage dictionary} x --verify-header {absent, matching, one bit off}, with generated source and pre-existing content. Whether a case is a refusal is decided by the specification table of the property (output exists without overwrite/in-place flag; header mismatch; invalid archive; device too small), not by the exit code. Oracle for refusals: exit != 0, output path content and length unchanged (or still absent for archive/header refusals); other files that a refused command creates or changes are counted in 'classes', not judged (the property speaks about the output). Non-trivial = refusal with non-empty pre-existing content; distinct by Blake2 of the canonical case; the matrix cells reached are listed in 'classes'.".into(),
+            rule: "cases = the real CLI on the matrix {clone local, clone over HTTP, compress} x output {absent, regular file, block device, block device smaller than the source — by 1..200 bytes or by any amount — (both via the cfg(oll3_bita_verif) hook)} x flags {neither, --force-create, --seed-output, both} x archive {valid, random bytes, empty file, one flipped header bit, truncated header, valid checksum but no chunker parameters / unknown compression / unknown algorithm / garbage dictionary} x --verify-header {absent, matching, one bit off} x --seed {none, the output path itself (also spelled ./name, also next to another seed), another file, stdin}, with generated source and pre-existing content. Whether a case is a refusal is decided by the specification table of the property (output exists without overwrite/in-place flag; header mismatch; invalid archive; device too small), not by the exit code. Oracle for refusals: exit != 0, output path content and length unchanged (or still absent for archive/header refusals); other files that a refused command creates or changes are counted in 'classes', not judged (the property speaks about the output). Non-trivial = refusal with non-empty pre-existing content; distinct by Blake2 of the canonical case; the matrix cells reached are listed in 'classes'.".into(),
             assumptions: vec!["archives that open correctly but fail later (corrupt chunk data) are not refusals and are outside C14".into(), "header-valid-but-inconsistent dictionaries that panic today (C15 known findings) are not used here".into()],
             ..Meta::default()
         }
